@@ -64,7 +64,7 @@ def run_property(prop, repo_root, tier, seed, evidence_dir=None, quiet=False):
             if c.obligations < c.floor:
                 raise AnalysisError('instance floor not met: clause %s bound to %d constructs, floor %d (%s)' % (
                     c.id, c.obligations, c.floor, c.title))
-    except AnalysisError as ex:
+    except Exception as ex:
         # a later clause could not bind to the tree; violations already established by earlier clauses stand on their own
         partial = report.LAST_RESULT[0]
         known = report.load_known()
